@@ -146,7 +146,7 @@ def validate_chunks(sd, trace, timeout, maxlines=1200000, par=3):
 def run_all(tier):
     """Shared run for all properties of this engine; cached per (tree, spec, harness, tier, seed)."""
     key = "%s-%s-%d%s" % (tree_hash(), tier, vp.seed(), ("-only-" + hashlib.sha256(os.environ["VERIF_ONLY"].encode()).hexdigest()[:8]) if os.environ.get("VERIF_ONLY") else "")
-    cdir = os.path.join(vp.WORKROOT, "cache-swapfsm")
+    cdir = os.environ.get("VERIF_CACHE_DIR") or os.path.join(vp.WORKROOT, "cache-swapfsm")
     cfile = os.path.join(cdir, key + ".json")
     if os.path.exists(cfile) and not os.environ.get("VERIF_NOCACHE"):
         vp.log("swapfsm: reusing result of this tree/spec/tier/seed:", key)
@@ -163,9 +163,28 @@ def run_all(tier):
         import gen_tables
         gen_tables.gen(json.load(open(tj)), os.path.join(sd, "FsmTables.tla"))
         tmo = 7200 if tier == "thorough" else 1200
-        res, scheds = export_all(sd, wd, tier, tmo, os.environ.get("VERIF_ONLY", "").split(",") if os.environ.get("VERIF_ONLY") else None)
+        only = os.environ.get("VERIF_ONLY", "").split(",") if os.environ.get("VERIF_ONLY") else None
+        # the export depends only on the specification, the state tables extracted from the code and the configurations:
+        # a change of the code that leaves the tables alone reuses it (the schedules are then run on the changed code)
+        eh = hashlib.sha256()
+        for p in sorted(glob.glob(os.path.join(sd, "PeerSwap*.tla")) + glob.glob(os.path.join(sd, "PeerSwap*.cfg")) + [os.path.join(sd, "FsmTables.tla")]):
+            if not p.endswith("PeerSwapCfgs.tla"):
+                eh.update(open(p, "rb").read())
+        eh.update(json.dumps([swapfsm_cfgs.configs(tier), only]).encode())
+        efile = os.path.join(cdir, "export-%s-%s.json" % (tier, eh.hexdigest()[:20]))
+        if os.path.exists(efile) and not os.environ.get("VERIF_NOCACHE"):
+            res, scheds = json.load(open(efile))
+            res["reused"] = True
+            vp.log("  model: reusing the exploration of this specification / tables / configurations (%s)" % os.path.basename(efile))
+        else:
+            res, scheds = export_all(sd, wd, tier, tmo, only)
+            res.pop("out", None)
+            os.makedirs(os.path.dirname(efile), exist_ok=True)
+            for old in sorted(glob.glob(os.path.join(cdir, "export-%s-*.json" % tier)), key=os.path.getmtime)[:-3]:
+                os.remove(old)
+            json.dump([res, scheds], open(efile, "w"))
         results = dict(all=dict(generated=res["generated"], distinct=res["distinct"], depth=res["depth"], wall=round(res["wall"], 1),
-                                schedules=len(scheds), configurations=res["ncfg"]))
+                                schedules=len(scheds), configurations=res["ncfg"], reused_from_cache=bool(res.get("reused"))))
         vp.log("  model: %d configurations, %d generated, %d distinct, depth %d, %.1fs -> %d schedules" % (
             res["ncfg"], res["generated"], res["distinct"], res["depth"], res["wall"], len(scheds)))
         drift_actions = [s for s in scheds if any("spec-drift" in x for x in s.get("expect", []))]
@@ -253,7 +272,7 @@ def run_all(tier):
             viols.append(dict(sig=x["sig"], t=x["t"], seq=x["seq"], name=s["name"] + ":retransmit", schedule=dict(name=s["name"], cfg=s["cfg"], steps=s["steps"], psim_flags="-retransmit 25ms")))
         out = dict(key=key, retransmit=dict(schedules=len(rsched), events=rv["n"], retransmitted_copies=nretx), tier=tier, models=results, nschedules=len(scheds), nexported=exported, nclosed=len(scheds) - nmodel, nevents=nev, viol=viols,
                    drift=drift[:50], ndrift=len(drift), wall=round(time.time() - t0, 1),
-                   states=sum(r["distinct"] for r in results.values()), transitions=sum(r["generated"] for r in results.values()),
+                   states=sum(r["distinct"] for r in results.values() if isinstance(r, dict)), transitions=sum(r["generated"] for r in results.values() if isinstance(r, dict)),
                    samples=[dict(name=s["name"], steps=s["steps"]) for s in random.Random(vp.seed()).sample(scheds, min(3, len(scheds)))],
                    predicted=sorted({x for s in scheds for x in s.get("expect", [])}))
         os.makedirs(cdir, exist_ok=True)
